@@ -121,3 +121,33 @@ Example C06_example_mixed :
   /\ filter_selected true [] ["#performance"] c = false
   /\ filter_selected false ["hugeParam"] ["hugeParam"] c = false.
 Proof. vm_compute. auto. Qed.
+
+(* ---- round 5: "identically in the CLI, its twin binary, the analyzer" for the SAME flag texts ----
+   Both dialects split at commas and trim every element; the analyzer's "<default>" disable value is its own. *)
+Theorem C06_frontends_same_flag_text : forall reg all en dis c,
+  String.eqb dis "<default>" = false ->
+  cli_selected reg {| cf_all := all; cf_enable := Some en; cf_disable := Some dis |} c
+  = an_selected {| af_all := all; af_enable := Some en; af_disable := Some dis |} c.
+Proof. exact frontends_same_keys. Qed.
+Print Assumptions C06_frontends_same_flag_text.
+
+(* The CLIs before the repair (strings.Split only) agreed with the analyzer on lists without surrounding blanks ... *)
+Theorem C06_frontends_same_flag_text_prefix_partial : forall reg all en dis c,
+  unpaddedb (split_on comma en) = true -> unpaddedb (split_on comma dis) = true ->
+  String.eqb dis "<default>" = false ->
+  cli_selected_prefix reg {| cf_all := all; cf_enable := Some en; cf_disable := Some dis |} c
+  = an_selected {| af_all := all; af_enable := Some en; af_disable := Some dis |} c.
+Proof. exact frontends_same_keys_prefix. Qed.
+Print Assumptions C06_frontends_same_flag_text_prefix_partial.
+
+(* ... and not otherwise: `-enable=' dupArg'` selected nothing in the CLI and dupArg in the analyzer. *)
+Theorem C06_frontends_padded_prefix_refuted :
+  exists reg all en dis c, In c reg /\ valid_checker c = true /\ String.eqb dis "<default>" = false /\
+    cli_selected_prefix reg {| cf_all := all; cf_enable := Some en; cf_disable := Some dis |} c
+    <> an_selected {| af_all := all; af_enable := Some en; af_disable := Some dis |} c.
+Proof. exact frontends_padded_prefix_refuted. Qed.
+Print Assumptions C06_frontends_padded_prefix_refuted.
+
+Example C06_example_unpadded :
+  unpaddedb (split_on comma "#diagnostic,#style,dupArg,") = true /\ unpaddedb (split_on comma "#style, #performance") = false.
+Proof. vm_compute. auto. Qed.
